@@ -166,6 +166,14 @@ func (c *monC04) After(m *Machine, s *Step) *Violation {
 		return nil
 	}
 	r := s.Resp
+	if op.K == "o2cb" {
+		// a completed OAuth2 login passes lock's hook, which stamps the account's last attempt: follow storage for it
+		if who := r.UID(); who != "" {
+			if post, ok := s.Post.Users[who]; ok {
+				c.resync(who, post)
+			}
+		}
+	}
 	pid, ev := c04Event(m, s)
 	// every account other than the one concerned keeps its lock state
 	for p, post := range s.Post.Users {
